@@ -42,7 +42,7 @@ ASSUMPTIONS = [
     "names range over z3 strings (same character range), unbounded length",
     "functools.lru_cache returns the value computed for an equal key (bypassed via __wrapped__)",
 ]
-OUTSIDE = ["patterns longer than the bound", "code points above U+2FFFF", "inventory_cli argument parsing", "Sphinx's intersphinx-backed get_inventory_matches override"]
+OUTSIDE = ["patterns longer than the bound", "inv: link spellings with inventory/domain/type parts are exercised only through filter_inventories (family F)", "code points above U+2FFFF", "inventory_cli argument parsing", "Sphinx's intersphinx-backed get_inventory_matches override"]
 STUBS = ["re.compile inside _create_regex -> captures the emitted regex text and flags (the text is then translated to z3)", "get_inventory_matches -> list of k symbolic InvMatch objects (family L)"]
 NONTRIVIAL_RULE = "W: paths whose pattern contains at least one '*' or backslash; F: paths where at least one entry matched and one did not"
 
@@ -481,6 +481,87 @@ def build_inventories(ns):
     }
 
 
+TARGETS = ["a", "a*", "*", "ab", "\\*", "b", "*b"]
+
+
+def make_invlink(eng, nname):
+    """'inv:' links through the real render_link_inventory / get_inventory_matches / filter_inventories with an
+    inventory whose entry names are symbolic: 0 matches -> one iref_missing warning and no reference; 1 -> reference to
+    base_url + loc; > 1 -> one iref_ambiguous warning and the FIRST match in inventory order."""
+    from harness import common_render as CR
+
+    CR.setup()
+    names = [new_str(eng, "n%d" % i, nname, alphabet="ab*") for i in range(3)]
+    tsel = new_int(eng, "target", 0, len(TARGETS) - 1)
+    explicit = new_int(eng, "explicit", 0, 1)
+    eng.witness_fn = lambda m: {"names": [eng.eval_model(m, x) for x in names], "target": TARGETS[eng.eval_model(m, tsel)], "explicit": eng.eval_model(m, explicit)}
+
+    def body():
+        ns = [lift(x) for x in names]
+        eng.assume(b_not(SStr.of(ns[0])._eq(ns[1])))
+        eng.assume(b_not(SStr.of(ns[0])._eq(ns[2])))
+        eng.assume(b_not(SStr.of(ns[1])._eq(ns[2])))
+        target = TARGETS[eng.concretize_int(tsel)]
+        ex = bool(eng.concretize_int(explicit))
+        got = run_invlink(CR, CR.R["base"], ns, target, ex)
+        exp = [i for i, n in enumerate(ns) if T(spec_match_sym(n, target))]
+        check_invlink(eng, got, exp, ex)
+        if len(exp) != 1:
+            eng.note("filter_nontrivial")
+        return len(exp)
+
+    return body
+
+
+def T(v):
+    return v if isinstance(v, bool) else bool(v)
+
+
+def run_invlink(CR, base, ns, target, explicit, real=False):
+    from docutils import nodes
+    from markdown_it.token import Token
+
+    ctx = CR.new_context(real=real, config={"inventories": {"k": ("https://base.invalid/root/", None)}})
+    inv_data = {"name": "P", "version": "1", "base_url": "https://base.invalid/root/", "objects": {"std": {"label": {ns[0]: {"loc": "l0.html", "text": None}, ns[1]: {"loc": "l1.html#x", "text": "T1"}},
+                                                                                                        "doc": {ns[2]: {"loc": "l2.html", "text": None}}}}}
+    saved = base.inventory.fetch_inventory
+    base.inventory.fetch_inventory = lambda *a, **k: inv_data
+    try:
+        href = "inv:#" + target
+        if explicit:
+            link = [Token("link_open", "a", 1, attrs={"href": href}), Token("text", "", 0, content="linktext"), Token("link_close", "a", -1)]
+        else:
+            link = [Token("link_open", "a", 1, attrs={"href": href}, info="auto", markup="autolink"), Token("text", "", 0, content=href), Token("link_close", "a", -1, info="auto", markup="autolink")]
+        ctx.renderer._render_tokens(CR.paragraph(0, "x", children=link))
+    finally:
+        base.inventory.fetch_inventory = saved
+    refs = [(r.get("refuri"), r.astext()) for r in ctx.document.findall(nodes.reference)]
+    msgs = [m.astext() for m in CR.messages(ctx.document)]
+    texts = [str(t) for t in ctx.document.findall(nodes.Text) if not isinstance(t.parent.parent, nodes.system_message)]
+    return refs, msgs, texts
+
+
+LOCS = ["https://base.invalid/root/l0.html", "https://base.invalid/root/l1.html#x", "https://base.invalid/root/l2.html"]
+
+
+def check_invlink(eng, got, exp, explicit):
+    refs, msgs, texts = got
+    nmiss = sum(1 for m in msgs if "[myst.iref_missing]" in m)
+    namb = sum(1 for m in msgs if "[myst.iref_ambiguous]" in m)
+    if not exp:
+        eng.require(nmiss == 1 and namb == 0 and not refs, "invlink-missing", "no match: %d missing / %d ambiguous warnings, %d references" % (nmiss, namb, len(refs)))
+        if explicit:
+            eng.require(texts.count("linktext") == 1, "invlink-text-lost")
+        return
+    eng.require(len(refs) == 1, "invlink-reference-count", "%d references" % len(refs))
+    eng.require(refs[0][0] == LOCS[exp[0]], "invlink-not-first-match", "refuri %r, first match is entry %d (%s)" % (refs[0][0], exp[0], LOCS[exp[0]]))
+    eng.require(nmiss == 0 and namb == (1 if len(exp) > 1 else 0), "invlink-warning-count", "%d matches: %d missing / %d ambiguous warnings" % (len(exp), nmiss, namb))
+    if explicit:
+        eng.require(refs[0][1] == "linktext", "invlink-text")
+    elif exp[0] == 1:
+        eng.require(refs[0][1] == "T1", "invlink-implicit-text")
+
+
 def families(tier, seed):
     q = tier == "quick"
     F = []
@@ -493,6 +574,9 @@ def families(tier, seed):
     for nn in ([1, 2] if q else [2, 3]):
         F.append(Family("F/names%d" % nn, make_filter, "2 inventories / 3 domain:type groups / 5 entries, 2 symbolic names of %d chars over 'a*\\\\.b', filter quadruple from %d patterns each" % (nn, len(PATS)),
                         args=dict(nname=nn), nontrivial="filter_nontrivial", required=(nn <= 1 if q else nn <= 2), max_forks=20000))
+    for nn in ([1, 2] if q else [2, 3]):
+        F.append(Family("L/names%d" % nn, make_invlink, "inv: link (explicit text / autolink) with target pattern from %r against an inventory of 3 entries with symbolic names of %d chars over 'ab*'" % (TARGETS, nn),
+                        args=dict(nname=nn), nontrivial="filter_nontrivial", max_forks=40000, required=(nn <= 2)))
     return F
 
 
@@ -515,6 +599,30 @@ def replay(label, witness):
         exp = spec_match(n, p)
         if got != exp:
             return ("C19/wildcard:%s" % _classify(p, n), "match_with_wildcard(name=%r, pattern=%r) = %r, documented semantics = %r" % (n, p, got, exp))
+        return None
+    if "target" in witness:
+        from harness import common_render as CR
+        import myst_parser.mdit_to_docutils.base as rbase
+
+        ns, target, ex = witness["names"], witness["target"], bool(witness["explicit"])
+        if len(set(ns)) != 3:
+            return None
+        try:
+            got = run_invlink(CR, rbase, ns, target, ex, real=True)
+        except Exception as e:  # noqa
+            return ("C19/invlink-exception:%s" % type(e).__name__, "%r" % (e,))
+        exp = [i for i, n in enumerate(ns) if spec_match(n, target)]
+
+        class CE:
+            def require(self, c, label, detail=""):
+                if not c:
+                    raise AssertionError((label, detail))
+
+        try:
+            check_invlink(CE(), got, exp, ex)
+        except AssertionError as a:
+            label, detail = a.args[0]
+            return ("C19/%s" % label, "inv:#%s over names %r (matching entries %r): %s; got %r" % (target, ns, exp, detail, got[:2]))
         return None
     names, pats = witness["names"], witness["patterns"]
     if names[0] == names[1] or names[2] == names[3]:
